@@ -102,6 +102,9 @@ class Harness(object):
         self.db.bind('sqlite', ':memory:', factory=make_logging_connection(self.sql_log))
         self.db.generate_mapping(create_tables=True)
         self.dirty = False          # a modifying call succeeded since the last flush (explicit or possible auto-flush)
+        self.window_dirty = set()
+        self.window_deleted = 0
+        self.window_tag = False
         self.last_failed_keys = None
         self.pobj = {}            # handle -> pony object (current session only)
         self.created = set()      # handles created in the current transaction and possibly not yet inserted
@@ -140,11 +143,15 @@ class Harness(object):
         self.maybe_flushed = False
         self.doomed = False
         self.dirty = False
+        self.window_dirty = set()
+        self.window_deleted = 0
+        self.window_tag = False
         self.ghost_pks = set()         # (entity, pk) of objects deleted in this transaction and not yet flushed
         self.failed_calls = 0          # modifying calls that raised in this transaction
         self.trace.append(('-- session begins', '', None))
         self.session_no = getattr(self, 'session_no', -1) + 1
-        last = self.session_no == len(self.program['sessions']) - 1
+        sess_ = self.program['sessions']
+        last = self.session_no >= len(sess_) - (2 if len(sess_) >= 2 and sess_[-2].get('mixed') else 1)
         if self.variant.get('preload') is not None and (last or not self.variant.get('last_session_only')):
             preload = self.variant['preload']
         if preload:
@@ -234,7 +241,16 @@ class Harness(object):
         if m['pk'] is None:
             raise Abort('handle %d has no pk and no session object' % h)
         cls = self.classes[m['ent']]
-        o = cls[m['pk']]
+        try:
+            o = cls[m['pk']]
+        except Exception as e:
+            if type(e).__name__ == 'ObjectNotFound' and not self.model.tainted and not self.doomed:
+                for p in ('C15', 'C10', 'C09', 'C11', 'C12'):
+                    if p in self.primary:
+                        raise Fail(p, 'the session state holds h%d = %s[%r] as a live object (no delete reached it), but looking it '
+                                      'up by primary key raises ObjectNotFound' % (h, m['ent'], m['pk']))
+                raise Abort('live object not found: %s' % e)
+            raise
         self.pobj[h] = o
         return o
 
@@ -263,6 +279,9 @@ class Harness(object):
         self.maybe_flushed = False
         self.doomed = False
         self.dirty = False
+        self.window_dirty = set()
+        self.window_deleted = 0
+        self.window_tag = False
         self.ghost_pks = set()
         self.failed_calls = 0
         self.bump('tx_failed:' + type(exc).__name__)
@@ -294,6 +313,9 @@ class Harness(object):
             return
         self.after_write_success(exp, why, 'flush')
         self.dirty = False
+        self.window_dirty = set()
+        self.window_deleted = 0
+        self.window_tag = False
         self.learn_pks()
         self.created = set()
         self.maybe_flushed = False
@@ -314,6 +336,9 @@ class Harness(object):
             return False
         self.after_write_success(exp, why, 'commit')
         self.dirty = False
+        self.window_dirty = set()
+        self.window_deleted = 0
+        self.window_tag = False
         self.learn_pks()
         self.created = set()
         self.maybe_flushed = False
@@ -343,7 +368,9 @@ class Harness(object):
                 raise Fail('C16', '%s failed with %s: %s although no other session exists: the flush order made the '
                                   'database change a row before its own pending write' % (what, name, msg[:300]))
             if fk and 'C16' in self.props:
-                raise Fail('C16', '%s failed with %s: %s although all pending references can be ordered' % (what, name, msg[:300]))
+                raise Fail('C16', '%s failed with %s: %s although all pending references can be ordered%s'
+                           % (what, name, msg[:300], ' [history: an object with a pending update was deleted after another '
+                                                     'delete in the same flush window]' if self.window_tag else ''))
             self.bump('unexpected_write_failure:' + name)
             if not self.is_fatal(e) and not isinstance(e, AssertionError):
                 self.bump('unexpected_write_failure_nonfatal')
@@ -410,7 +437,7 @@ class Harness(object):
         before = self.snapshot(depth) if 'C13' in self.props else None
         pending_before = self.pending_collection_state() if 'C13' in self.primary else None
         internals_ok_before = False
-        if 'C13' in self.primary:
+        if 'C13' in self.primary or 'C11' in self.primary:
             try:
                 self.internal_diagnostics(desc)
                 internals_ok_before = True
@@ -434,6 +461,19 @@ class Harness(object):
                 for hh, mm in self.model.cur.objs.items():
                     if hh not in res.objs and mm['pk'] is not None:
                         self.ghost_pks.add((mm['ent'], mm['pk']))
+                # flush window bookkeeping (used only to recognise the history class of an open known finding)
+                prev = self.model.cur
+                gone = [hh for hh in prev.objs if hh not in res.objs]
+                if gone:
+                    self.window_deleted += len(gone)
+                    if self.window_deleted >= 2 and any(hh in self.window_dirty for hh in gone):
+                        self.window_tag = True
+                for hh, mm in res.objs.items():
+                    if hh in prev.objs and prev.objs[hh]['vals'] != mm['vals']:
+                        self.window_dirty.add(hh)
+                for k, v in res.links.items():
+                    for pair in v ^ prev.links.get(k, set()):
+                        self.window_dirty.update(pair)
                 self.model.cur = res
             elif res.kind == 'conflict':
                 # Pony accepted a key that the session state already holds elsewhere (the other row may simply not
@@ -466,6 +506,13 @@ class Harness(object):
                 raise Fail('C11', '%s, which the reference store accepts, raised an internal %s inside Pony (%s): the session '
                                   'key index does not match the objects the session holds'
                            % (desc, type(raised).__name__, str(raised)[:120]))
+        if 'C11' in self.primary and 'C13' not in self.primary and internals_ok_before:
+            self.internal_diagnostics(desc, 'C11')
+        if 'C11' in self.primary and not self.model.tainted and not self.doomed:
+            # the identity map after a failed call: every object the program holds is still the object of its primary key
+            self.guard_read(lambda: self.check_identity(0))
+            if not self.in_session or self.stats.get('tx_failures', 0) != tx_before:
+                return None
         if 'C13' in self.primary:
             if internals_ok_before:
                 self.internal_diagnostics(desc)
@@ -539,7 +586,7 @@ class Harness(object):
                 raise Fail('STRICT', '%s raised %s: %s but the model accepts it' % (desc, type(raised).__name__, str(raised)[:200]))
         return None
 
-    def internal_diagnostics(self, desc):
+    def internal_diagnostics(self, desc, prop='C13'):
         """Secondary diagnostic on Pony's private bookkeeping after a failed call (C13: 'object status and the set of
         pending writes'; C11: identity map).  Every object whose status says it has a pending write must sit in the save
         queue at its recorded position, and every live object with a primary key must be the one the pk index returns.
@@ -557,7 +604,7 @@ class Harness(object):
                 pos = o._save_pos_
             except Exception:
                 return
-            if status in ('created', 'modified', 'marked_to_delete'):
+            if prop == 'C13' and status in ('created', 'modified', 'marked_to_delete'):
                 if pos is None or pos >= len(queue) or queue[pos] is not o:
                     raise Fail('C13', '%s failed and left %s with status %r but without its slot in the pending-write queue '
                                       '(its write would be silently dropped)' % (desc, self.safe_ident(o), status))
@@ -568,8 +615,8 @@ class Harness(object):
                 except Exception:
                     continue
                 if pk is not None and idx.get(pk) is not o:
-                    raise Fail('C13', '%s failed and left the live object %s out of the primary key index' % (desc, self.safe_ident(o)))
-        for i, o in enumerate(queue):
+                    raise Fail(prop, '%s failed and left the live object %s out of the primary key index' % (desc, self.safe_ident(o)))
+        for i, o in enumerate(queue if prop == 'C13' else ()):
             if o is not None and getattr(o, '_save_pos_', i) != i:
                 raise Fail('C13', '%s failed and left the pending-write queue inconsistent at position %d' % (desc, i))
 
@@ -646,6 +693,13 @@ class Harness(object):
         if not live:
             return None
         return live[c % len(live)]
+
+    def op_ent(self, op, n):
+        """optional trailing field of an op: index of the entity whose objects the op aims at (hub family)"""
+        if len(op) > n and isinstance(op[n], int):
+            ents = self.spec['entities']
+            return ents[op[n] % len(ents)]['name']
+        return None
 
     def settable_attrs(self, ent):
         out = [('scalar', sc) for sc in self.model.ents[ent]['scalars']]
@@ -765,7 +819,7 @@ class Harness(object):
 
     def op_set(self, op):
         _, oc, ac, vc = (list(op) + [0, 0, 0])[:4]
-        h = self.pick_live(oc)
+        h = self.pick_live(oc, self.op_ent(op, 4))
         if h is None:
             return
         ent = self.model.cur.objs[h]['ent']
@@ -809,7 +863,7 @@ class Harness(object):
 
     def op_setm(self, op):
         _, oc, pairs = (list(op) + [0, []])[:3]
-        h = self.pick_live(oc)
+        h = self.pick_live(oc, self.op_ent(op, 3))
         if h is None:
             return
         ent = self.model.cur.objs[h]['ent']
@@ -858,7 +912,7 @@ class Harness(object):
 
     def op_coll(self, op):
         name, oc, ac, mask = (list(op) + [0, 0, 0])[:4]
-        h = self.pick_live(oc)
+        h = self.pick_live(oc, self.op_ent(op, 4))
         if h is None:
             return
         ent = self.model.cur.objs[h]['ent']
@@ -1038,13 +1092,36 @@ class Harness(object):
 
     def op_delete(self, op):
         _, oc = (list(op) + [0])[:2]
-        h = self.pick_live(oc)
+        ent = None
+        if len(op) > 2:     # ['del', c, entity index]: delete an object of that entity (the hub family aims at the hub)
+            ents = self.spec['entities']
+            ent = ents[op[2] % len(ents)]['name']
+        h = self.pick_live(oc, ent)
         if h is None:
             return
 
         def pony_call():
             self.obj(h).delete()
             return True
+        # coverage measure only: does this delete do part of its cascade/unlinking before a relationship refuses it?
+        try:
+            st_ = self.model.cur
+            ends_ = self.model.rel_ends_of(st_.objs[h]['ent'])
+            work = refused = False
+            for end, rev in [er for er in ends_ if er[0]['many']] + [er for er in ends_ if not er[0]['many']]:
+                if not self.model.partners(st_, h, end):
+                    continue
+                if rev is not None and not rev['many'] and rev['req'] and not end['cascade']:
+                    refused = True
+                    break
+                if rev is not None and (end['cascade'] or not rev['many']):
+                    work = True
+            if refused:
+                self.bump('delete_refused_by_model')
+                if work:
+                    self.bump('delete_refused_after_partial_work')
+        except Exception:
+            pass
         self.modify('h%d.delete()' % h, lambda: self.model.op_delete(h), pony_call, 'delete', needs=[h])
         self.prune()
 
@@ -1360,7 +1437,12 @@ class Harness(object):
             if pk is None:
                 continue
             cls = self.classes[m['ent']]
-            o2 = cls[pk]
+            try:
+                o2 = cls[pk]
+            except Exception as e:
+                if type(e).__name__ != 'ObjectNotFound':
+                    raise
+                raise Fail('C11', '%s[%r] raises ObjectNotFound although the program holds that live object (h%d)' % (m['ent'], pk, h))
             if o2 is not o:
                 raise Fail('C11', '%s[%r] is a different object than the one the program holds (h%d)' % (m['ent'], pk, h))
             o3 = cls.get(**({'k1': pk[0], 'k2': pk[1]} if isinstance(pk, tuple) else {'id': pk}))
@@ -1635,6 +1717,9 @@ class Harness(object):
                 self.ghost_pks = set()
                 self.failed_calls = 0
                 self.dirty = False
+                self.window_dirty = set()
+                self.window_deleted = 0
+                self.window_tag = False
             elif name == 'read':
                 if 'C10' in self.props or 'C11' in self.props:
                     self.guard_read(lambda: self.read_ops(op))
@@ -1754,3 +1839,69 @@ def programs(spec_strategy=None, max_sessions=3, max_ops=10, weights=None):
     })
     return st.builds(lambda spec, s0, rest, snap: {'spec': spec, 'sessions': [s0] + rest, 'snap': snap},
                      spec_strategy, setup, st.lists(session, min_size=1, max_size=max_sessions), st.integers(0, 2))
+
+
+
+def hub_programs(max_sessions=2, max_ops=8, weights=None, keys=True):
+    """Programs over modelspec.hub_specs(): the first session creates hubs and children linked to the first hub, the later
+    sessions modify children, create new ones, edit collections and then delete a hub (refused, usually after part of the
+    cascade was done), followed by more calls and a commit."""
+    from hypothesis import strategies as st
+    c = st.integers(0, 40)
+    w = dict(create=8, set=6, setm=2, cadd=2, crem=3, cclear=1, flush=1, read=1, ident=1, retake=1)
+    w.update(weights or {})
+    for k in ('del', 'commit', 'rollback', 'rekey'):
+        w.pop(k, None)
+    linked = st.sampled_from([1, 1, 1, 5, 2])     # reference code 1/5: the first/second live target, 2: the first, too
+    create = st.tuples(st.just('create'), st.sampled_from([1, 1, 1, 2, 2, 0]), c, st.lists(c, max_size=3),
+                       st.lists(linked, min_size=4, max_size=4),
+                       st.lists(st.sampled_from([1, 1, 3, 0]), min_size=3, max_size=3)).map(list)
+    hub = st.tuples(st.just('create'), st.just(0), c, st.lists(c, max_size=3), st.just([]), st.just([])).map(list)
+    table = {
+        'create': create,
+        'set': st.tuples(st.just('set'), c, c, c).map(list),
+        'setm': st.tuples(st.just('setm'), c, st.lists(st.tuples(c, c).map(list), min_size=1, max_size=3)).map(list),
+        'cadd': st.tuples(st.just('cadd'), c, c, st.integers(0, 31)).map(list),
+        'crem': st.tuples(st.just('crem'), c, c, st.integers(0, 31)).map(list),
+        'cclear': st.tuples(st.just('cclear'), c, c).map(list),
+        'flush': st.just(['flush']),
+        'read': st.tuples(st.just('read'), c, c, c, c).map(list),
+        'ident': st.tuples(st.just('ident'), st.integers(0, 3)).map(list),
+        'retake': st.tuples(st.just('retake'), c).map(list),
+    }
+    names = []
+    for name, weight in sorted(w.items()):
+        if name in table:
+            names.extend([name] * weight)
+    op = st.sampled_from(names).flatmap(lambda n: table[n])
+    del_hub = st.tuples(st.just('del'), st.sampled_from([0, 0, 1]), st.just(0)).map(list)
+    del_any = st.tuples(st.just('del'), c).map(list)
+    child = st.sampled_from([1, 1, 2])
+    hubi = st.sampled_from([0, 0, 1])
+    mask = st.integers(1, 7)
+    aimed = st.one_of(
+        st.tuples(st.just('set'), c, st.sampled_from([0, 0, 1]), c, child).map(list),      # a child's scalar (pending UPDATE)
+        st.tuples(st.just('set'), c, st.sampled_from([0, 0, 1]), c, child).map(list),
+        st.tuples(st.just('set'), hubi, st.sampled_from([0, 0, 1]), c, st.just(0)).map(list),  # the hub's scalar
+        st.tuples(st.just('set'), c, st.integers(1, 6), c, child).map(list),                # move a child / relink it
+        create, create, create,
+        st.tuples(st.just('crem'), hubi, c, mask, st.just(0)).map(list),                    # pending removals on the hub
+        st.tuples(st.just('crem'), hubi, c, mask, st.just(0)).map(list),
+        st.tuples(st.just('cadd'), hubi, c, mask, st.just(0)).map(list),
+        st.tuples(st.just('cclear'), hubi, c, st.just(0), st.just(0)).map(list),
+        st.tuples(st.just('crem'), c, c, mask, child).map(list),
+        op, op, st.just(['flush']))
+    first = st.one_of(st.just([]), st.just([]), create.map(lambda o: [o]), create.map(lambda o: [o]),
+                      st.tuples(st.just('set'), c, st.sampled_from([0, 0, 1]), c, child).map(lambda o: [list(o)]),
+                      st.tuples(st.just('set'), hubi, st.sampled_from([0, 0, 1]), c, st.just(0)).map(lambda o: [list(o)]),
+                      st.tuples(st.just('crem'), hubi, c, mask, st.just(0)).map(lambda o: [list(o)]))
+    session = st.builds(lambda pre, f, before, d, after, end: {'preload': pre, 'ops': f + before + [d] + after, 'end': end},
+                        st.sampled_from([True, True, True, False]), first, st.lists(aimed, min_size=0, max_size=max_ops // 2),
+                        st.one_of(del_hub, del_hub, del_hub, del_any), st.lists(op, min_size=0, max_size=max_ops // 2),
+                        st.sampled_from(['commit', 'commit', 'commit', 'rollback']))
+    setup = st.builds(lambda hubs, children: {'preload': False, 'ops': hubs + children, 'end': 'commit'},
+                      st.lists(hub, min_size=1, max_size=2),
+                      st.lists(create.map(lambda o: [o[0], o[1] or 1] + o[2:]), min_size=2, max_size=7))
+    return st.builds(lambda spec, s0, rest, snap: {'spec': spec, 'sessions': [s0] + rest, 'snap': snap},
+                     modelspec.hub_specs(keys=keys), setup, st.lists(session, min_size=1, max_size=max_sessions),
+                     st.integers(0, 2))
